@@ -215,7 +215,9 @@ def run(ctx):
         fields = [f['name'] for f in adt['variants'][0]['fields']]
         # fields serialised: read by the to_*_bytes the writer calls
         written = set()
-        for c in wr.calls():
+        # the per-entry encode / decode may sit in private helpers of the writer / reader (`encode_track_entry`, `read_track_entry`)
+        whelpers = [F.fns[c.local_callee] for c in wr.calls() if c.local_callee in F.fns and not F.fns[c.local_callee].is_closure and not c.name.startswith('to_')]
+        for c in list(wr.calls()) + [x for h in whelpers for x in h.calls()]:
             if c.name.startswith('to_') and c.name.endswith('_bytes') and c.local_callee in F.fns:
                 g = F.fns[c.local_callee]
                 for bb, i, s in g.stmts():
@@ -243,6 +245,19 @@ def run(ctx):
                     from_index = 'Range::Range' in sl.aggs and any(x.name == 'next' for x in sl.calls)
                     if from_index:
                         synthesised[g.local_name(i + 1) or str(i)] = c
+        for c in rd.calls():
+            h = F.fns.get(c.local_callee) if c.local_callee else None
+            if h is None or h.is_closure or (c.name.startswith('from_') and c.name.endswith('_bytes')):
+                continue
+            for x in h.calls():
+                if x.name.startswith('from_') and x.name.endswith('_bytes') and x.local_callee in F.fns:
+                    g = F.fns[x.local_callee]
+                    for i, a in enumerate(x.args):
+                        ps = sorted(q for q in lib.slice_back(h, [a], through_calls=False, at=(x.bb, None)).args if 1 <= q <= len(c.args))
+                        for q in ps:
+                            sl = lib.slice_back(rd, [c.args[q - 1]], through_calls=True, at=(c.bb, None), stop_at_calls=('read_exact',))
+                            if 'Range::Range' in sl.aggs and any(y.name == 'next' for y in sl.calls):
+                                synthesised[g.local_name(i + 1) or str(i)] = c
         ctx.evaluations += len(fields)
         ctx.floor('COVER-C39c', len(written), 3, 'SketchEntry fields serialised by the writer')
         for name, c in sorted(synthesised.items()):
